@@ -2617,6 +2617,8 @@ class Composite(ArmiObject):
 
     def setChildren(self, items):
         """Clear this container and fills it with new children."""
+        # items may be an iterator over the current children, which removeAll would exhaust
+        items = list(items)
         self.removeAll()
         for c in items:
             self.add(c)
